@@ -18,8 +18,8 @@ THOROUGH = {
     "exhaustive": [("1sess-2mbox-4msgs-depth8", dict(depth=8, maxid=4, sess=("A",), mbox=("inbox", "b"), acts=ALL)),
                    ("2sess-2mbox-depth6", dict(depth=6, maxid=4, mbox=("inbox", "b"), acts=ALL))],
     "simulate": [("2mbox", dict(mbox=("inbox", "b"), maxid=8, maxpend=8, sets="SetsMedium", acts=ALL,
-                                 modes=("+", "-", "=")), 1200, 32)],
-    "random": 1500,
+                                 modes=("+", "-", "=")), 800, 32)],
+    "random": 800,
     "gen": dict(length=50, weights={"append": 10, "deliver": 10, "expunge": 8, "uidexpunge": 4, "copy": 8, "move": 8,
                                     "restart": 3, "create": 3, "delete": 3, "rename": 3, "status": 4, "store": 8,
                                     "fetch": 2, "fetchbody": 1, "search": 0, "idle": 1, "done": 1},
